@@ -1,6 +1,6 @@
 """Bounded stand-in for C02 (shuffle / dinucleotide_shuffle) — never counted as proved.
 
-Three kinds of checks, all against the REAL functions of tangermeme.ersatz:
+Two kinds of checks, both against the REAL functions of tangermeme.ersatz:
 
  (a) kind 'call': one call of ersatz.shuffle / ersatz.dinucleotide_shuffle (the compiled walk) on a
      batch of sequences; the oracle is written from the statement on the returned tensor:
@@ -12,10 +12,15 @@ Three kinds of checks, all against the REAL functions of tangermeme.ersatz:
  (b) kind 'walk': the public dinucleotide_shuffle is run with ersatz._fast_shuffle replaced by its own
      python body (`_fast_shuffle.py_func`, same code object) whose `numpy.random.permutation` is an
      *enumerating* source: every outcome of every internal permutation is visited (odometer over the
-     trail of choices).  For every outcome for which dinucleotide_shuffle returns: the result obeys
-     (a) and the walk has consumed every transition (counters[i, c] == number of occurrences of c
-     among the first L-1 characters, for every shuffle i and character c; a stranded walk reads a
-     stale successor and over-runs one counter while starving another).
+     trail of choices; the successor tables are the real ones built by _dinucleotide_shuffle).  For
+     every outcome for which dinucleotide_shuffle returns: the result obeys (a) and the walk has
+     consumed every transition (counters[i, c] == number of occurrences of c among the first L-1
+     characters, for every shuffle i and character c; a stranded walk reads a stale successor and
+     over-runs one counter while starving another).  To keep the exhaustive scope affordable the
+     outcomes of one sequence are enumerated inside ONE public call (each on a copy of the arrays,
+     judged on the raw walk arrays); an outcome that fails there is only a *suspect*: it is re-run as
+     its own public call (`check_walk`, also the replay harness) and reported only if that call
+     returns and violates.  On the smallest lengths every outcome is additionally its own call.
 
 The property conditions on "returned": a call that raises is counted (trivial case) but is never a
 violation.  On the pinned tree dinucleotide_shuffle raises for every region of length <= 2
@@ -47,7 +52,7 @@ SCOPE = {
               'dinucleotide_shuffle with n = 1 on one batch of all A^L sequences when A^L <= 512, else every k-th sequence (1024 for the whole region, 128 for other regions); '
               'dinucleotide_shuffle with n in {2,3}: one call per sequence, all sequences of length 3-5, whole region; '
               '300 seeded random longer cases for both functions (L 9-150, 1-4 sequences incl. low-complexity ones, random region / default end, n up to 5 resp. 20, '
-              'dtypes int8/float32/int64, seeds in [0, 2^31-8]).  Determinism: every call repeated after disturbing the numpy, numba and torch generators '
+              'dtypes int8/float32/int64, 15% non-contiguous inputs, seeds in [0, 2^31-8] and 2^32-8).  Determinism: every call repeated after disturbing the numpy, numba and torch generators '
               '(dinucleotide batches: whole-region calls and A^L <= 64 only)'),
     'thorough': ('ENUMERATED WALK: every outcome of every internal permutation for every sequence of length <= 8 over alphabets 2, 3 and 4 with n = 1 (467,915 outcomes) and of '
                  'length <= 6 with n = 2 (43,065 outcomes); one public call per outcome for length <= 5.  '
@@ -233,6 +238,11 @@ def check_call(case, info=None):
     L = idx.shape[1]
     dtype = _DT[case.get('dtype', 'int8')]
     X = _ohe(idx, A, dtype)
+    if case.get('strided'):                 # the same values as a non-contiguous view
+        big = torch.zeros((X.shape[0], A, 2 * L), dtype=dtype)
+        big[:, 0, :] = 1
+        big[:, :, ::2] = X
+        X = big[:, :, ::2]
     X0 = X.clone()
     e = L if end is None else end
     out = []
@@ -710,9 +720,8 @@ def run(rep):
                 case = _batch_case('dinuc', A, L, s, end, 1, seed, (N <= 1024 if thorough else N <= 64) or whole, cap)
                 _do_call(rep, case, ('D', A, L, s, end, 1, seed), 'dinuc-small-batch', stats)
     if done:
-        rep.mark_exhaustive('compiled shuffle%s and dinucleotide_shuffle(n=1): every region of every length <= 8, alphabets 2-4; all sequences when A^L <= %d, '
-                            'else all sequences for the whole region and every k-th sequence (k = stride) for the other regions'
-                            % ('' if thorough else ' (A^L <= 4096)', 4096 if thorough else 1024))
+        rep.mark_exhaustive('compiled shuffle and dinucleotide_shuffle(n=1): every region (+ default end) of every length <= 8, alphabets 2-4; every sequence when A^L <= %d (shuffle) / %d '
+                            '(dinucleotide), beyond that every k-th sequence of the lexicographic list (see SCOPE)' % ((4 ** 8, 4096) if thorough else (4096, 512)))
     else:
         rep.note('time budget reached inside the small-scope compiled part')
 
@@ -756,11 +765,14 @@ def run(rep):
             s = rng.randrange(0, L)
             e = rng.randint(s + 1, L)
             end = e
-        seed = rng.choice([rng.randrange(0, 1000), rng.randrange(0, 2 ** 31 - 8), 0, 2 ** 31 - 8])
+        # (dinucleotide_shuffle passes seed + i as int32 / numba seed; a call that raises is allowed)
+        seed = rng.choice([rng.randrange(0, 1000), rng.randrange(0, 2 ** 31 - 8), rng.randrange(0, 2 ** 31 - 8), 0, 2 ** 31 - 8, 2 ** 32 - 8])
         dtype = rng.choice(['int8', 'int8', 'float32', 'int64'])
+        strided = rng.random() < 0.15
         for fn in ('shuffle', 'dinuc'):
             n = rng.choice([1, 1, 2, 3, 5]) if fn == 'shuffle' else rng.choice([1, 1, 2, 3, 5, 20])
-            case = {'kind': 'call', 'fn': fn, 'A': A, 'seqs': seqs, 'start': s, 'end': end, 'n': n, 'seed': seed, 'dtype': dtype, 'det': True}
+            case = {'kind': 'call', 'fn': fn, 'A': A, 'seqs': seqs, 'start': s, 'end': end, 'n': n, 'seed': seed, 'dtype': dtype, 'det': True,
+                    'strided': strided}
             _do_call(rep, case, ('R', fn, k), fn + '-random', stats, sample=case if k < 1 else None)
     mark('random')
     rep.note('elapsed after each part: ' + ', '.join(marks))
